@@ -37,6 +37,32 @@ func poolAlphabet(maxAlive int, reset bool) func(m *model.Model) []model.Op {
 	}
 }
 
+// poolTargetAlphabet: the pool alphabet over a world in which entities are relation targets, so that single and
+// batch removal go through the target clean-up path (the removed handle must die there too).
+func poolTargetAlphabet(maxAlive int) func(m *model.Model) []model.Op {
+	return func(m *model.Model) []model.Op {
+		var ops []model.Op
+		al := m.Alive()
+		if len(al) < maxAlive {
+			ops = append(ops, model.Op{K: model.OpNew, Path: model.PathMapN, Cs: ct.Of(ct.P)})
+			for _, t := range targets(m, 2) {
+				ops = append(ops, model.Op{K: model.OpNew, Path: model.PathMapN, Cs: ct.Of(ct.R1), T: rel(ct.R1, t)})
+			}
+			for _, e := range pick2(al) {
+				ops = append(ops, model.Op{K: model.OpCopy, E: e})
+			}
+		}
+		for _, e := range al {
+			ops = append(ops, model.Op{K: model.OpRemoveEntity, E: e})
+		}
+		ops = append(ops, model.Op{K: model.OpRemoveEntities, F: 0})
+		ops = append(ops, model.Op{K: model.OpRemoveEntities, F: 1, Fn: true})
+		ops = append(ops, model.Op{K: model.OpRemoveEntities, F: 2})
+		ops = append(ops, model.Op{K: model.OpReset})
+		return validOnly(m, ops)
+	}
+}
+
 func init() {
 	Registry["C02"] = func(t Tier) *Check {
 		d := 7
@@ -56,7 +82,28 @@ func init() {
 			Alphabet: poolAlphabet(4, true),
 			Depth:    d,
 		}
-		return &Check{ID: "C02", Scenarios: []*engine.Scenario{sc, scaleRecycle(d - 3)},
-			Rule: "all histories over {NewEntity, NewEntities(2) with/without callback, Map.NewEntity, NewBatch(2), CopyEntity(i), RemoveEntity(i) for every alive i, RemoveEntities(all / by component), Reset} with <=4 alive entities; after every history: handles pairwise distinct since the last Reset, Alive(h) for every handle ever issued, Stats().Entities, Filter0 count; distinct = distinct model states (alive/dead pattern + components); non-trivial = >=1 alive entity"}
+		ur := []ct.Comp{ct.P, ct.R1}
+		scT := &engine.Scenario{
+			Name:    "C02-pool-targets",
+			Cfgs:    cfgs([]int{1, 2}, []int{0}, []api.RelMode{api.RelByIdx}, ur),
+			Filters: []model.FilterSpec{{}, {Params: []ct.Comp{ct.P}}, {Params: []ct.Comp{ct.R1}}},
+			Slots:   1,
+			Oracle:  drv.Oracle{World: true, Pool: true, Lock: true},
+			Preludes: [][]model.Op{nil, {
+				{K: model.OpNew, Path: model.PathMapN, Cs: ct.Of(ct.P)}, {K: model.OpNew, Path: model.PathMapN, Cs: ct.Of(ct.P)},
+				{K: model.OpNew, Path: model.PathMapN, Cs: ct.Of(ct.R1), T: rel(ct.R1, 0)},
+				{K: model.OpNew, Path: model.PathMapN, Cs: ct.Of(ct.R1), T: rel(ct.R1, 1)},
+			}},
+			Alphabet: poolTargetAlphabet(5),
+			Depth:    d - 2,
+		}
+		// dump/load is part of C02's quantifier: the C17 leaf (load into new / reset / JSON-decoded worlds, liveness of
+		// every handle, identical creation sequences) at every node of a shallower pool exploration
+		scD := &engine.Scenario{
+			Name: "C02-pool-dumpload", Cfgs: sc.Cfgs, Filters: sc.Filters, Slots: 1, Oracle: drv.Oracle{Pool: true},
+			Preludes: sc.Preludes, Alphabet: poolAlphabet(4, true), Depth: d - 2, Leaf: dumpLoadLeaf,
+		}
+		return &Check{ID: "C02", Scenarios: []*engine.Scenario{sc, scT, scD, scaleRecycle(d - 3)},
+			Rule: "C02-pool-targets: the same over {P, R1} where entities are relation targets (creation with target zero / first two alive, copy, single removal, RemoveEntities by all / P / R1, Reset; <=5 alive); C02-pool-dumpload: DumpEntities/LoadEntities at every node (oracle of C17); C02-pool: all histories over {NewEntity, NewEntities(2) with/without callback, Map.NewEntity, NewBatch(2), CopyEntity(i), RemoveEntity(i) for every alive i, RemoveEntities(all / by component), Reset} with <=4 alive entities; after every history: handles pairwise distinct since the last Reset, Alive(h) for every handle ever issued, Stats().Entities, Filter0 count; distinct = distinct model states (alive/dead pattern + components); non-trivial = >=1 alive entity"}
 	}
 }
